@@ -1,4 +1,7 @@
 ---- MODULE RangeReadGen ----
+(* Model-checks RangeRead (configuration Spec + invariants) and, before that, evaluates the two constant-level
+   obligations: the input universe is written for the harness, and the relation Ok is tight. *)
 EXTENDS RangeRead
-ASSUME Gen
+ASSUME Gen(TRUE)
+ASSUME OkIsTight(TRUE)
 ====
